@@ -14,9 +14,17 @@ open NV NV.AddrParse NV.NetParse
 /-- `[str(c) for c in sorted(self._cidrs)]` -/
 def reprStrs (be : Backend) (s : St) : List (List Char) := (reprSet s).map (netStr be)
 
-/-- `repr(list_of_str)` for quote-free strings -/
-def pyListRepr (strs : List (List Char)) : List Char :=
-  ['['] ++ (", ".toList).intercalate (strs.map (fun t => ['\''] ++ t ++ ['\''])) ++ [']']
+/-- `repr(str)` for a string without quotes, backslashes or non-printables -/
+def pyStrRepr (t : List Char) : List Char := '\'' :: t ++ ['\'']
+
+/-- `', '.join(repr(t) for t in strs)` -/
+def joinQuoted : List (List Char) → List Char
+  | [] => []
+  | [a] => pyStrRepr a
+  | a :: b :: r => pyStrRepr a ++ [',', ' '] ++ joinQuoted (b :: r)
+
+/-- `repr(list_of_str)` for such strings -/
+def pyListRepr (strs : List (List Char)) : List Char := '[' :: joinQuoted strs ++ [']']
 
 /-- `repr(ipset)` -/
 def reprText (be : Backend) (s : St) : List Char :=
